@@ -46,6 +46,12 @@ CHECKS.update({
    design_ref="3.3, 3.4", note=SEQ_NOTE),
 })
 
+CHECKS.update({
+ "C07": dict(engine="gridmc", category="exploration", technique="bounded-exhaustive enumeration of wire-level inputs (alphabet product + whole-field sweeps) through the real decode/update path against an exact dyadic-rational reference",
+   text="Tracking replies are built as wire bytes, decoded by chrony-candm's Reply::deserialize, sent as messages into the real process_messages loop, and the bound of the published record is compared with the exact value of |offset| + dispersion + delay/2 (+PHC) rounded up, computed in 256-bit integer arithmetic on the dyadic values of the three chrony floats (accepted: the IEEE-double evaluation envelope, one integer except within 2^-50 relative of an integer). Quick: product of per-field alphabets (both offset signs, sub-ns to 1e6 s, extreme exponents) x PHC values plus every 65537th of the 2^32 offset encodings; thorough: all 2^32 offset encodings (two delay/dispersion pairs) and all 2^25 coefficients x 5 exponents for delay and dispersion.",
+   design_ref="6", note="Trusted base: the wire builder (cross-checked against the crate's decoder at start-up), the 256-bit reference arithmetic. Reports with |value| >= 2^30 s or negative delay/dispersion are outside the statement's meaningful range and are not judged."),
+})
+
 NOT_APPLICABLE = {}
 
 def main():
